@@ -87,8 +87,10 @@ def classify(rej, scratch=None):
         if stalls:
             return {"C08"}
         props = {"C14", "C04"} if mode == "stream" else {"C05"}
-        if cfg.get("acl_on") and e.get("code") not in ("OK", "Canceled", "NotFound"):
-            props |= {"C07"}   # an authorised subscriber's stream was ended: what it was owed is not delivered
+        if e.get("code") not in ("OK", "Canceled", "NotFound"):
+            props |= {"C08"}   # ended with an error although none of its sends was blocked (the timeout clause)
+            if cfg.get("acl_on"):
+                props |= {"C07"}   # an authorised subscriber's stream was ended: what it was owed is not delivered
         return props
     if ev == "hang":
         what = e.get("what", "")
